@@ -40,14 +40,14 @@ func Encode(o ugo.Object, ids *Ids) string {
 	return sb.String()
 }
 
-// maxDepth bounds the rendering of nested values: a script can build a cyclic map or
-// array (m.x = m); at this depth the value is rendered as the opaque `odeep:0`, like the
-// model driver's imageOf (fuel 64).
-const maxDepth = 64
+// Cyclic marks a value nested deeper than maxDepth: a script can build a cyclic value
+// (`a[0] = a`), which has no finite rendering; streams skip outcomes containing the marker.
+const Cyclic = "!cyclic!"
+const maxDepth = 200
 
 func enc(sb *strings.Builder, o ugo.Object, ids *Ids, depth int) {
-	if depth >= maxDepth {
-		sb.WriteString("odeep:0")
+	if depth > maxDepth || sb.Len() > 16<<20 {
+		sb.WriteString(Cyclic)
 		return
 	}
 	switch v := o.(type) {
